@@ -551,12 +551,36 @@ func (tc *treeCase) add(batch []*rawCh, tag string) string {
 	for _, a := range res.Added {
 		added = append(added, a.Id)
 	}
-	impl := fmt.Sprintf("%s add=%s %s", status, orderedNums(tc, added), tc.post(after))
-	if strings.HasPrefix(model, "rebuild ") {
-		// the batch needs rebuildFromStorage (foreign snapshot id): outside the model, oracle only
-		tc.r.Count("unmodelled.rebuild." + strings.SplitN(status, ":", 2)[0])
-		tc.resync = true
-	} else if !tc.resync {
+	impl := fmt.Sprintf("%s add=%s %s br=n", status, orderedNums(tc, added), tc.post(after))
+	if strings.HasSuffix(model, " br=r") {
+		// the model says the batch takes the rebuildFromStorage branch: there the real code validates in
+		// iteration order and collects the new changes from a Go map, so only ok / err and the SET of
+		// added ids are compared
+		st := status
+		if st != "ok" {
+			st = "err"
+		}
+		impl = fmt.Sprintf("%s add=%s %s br=r", st, sortedNums(tc, added), tc.post(after))
+		tc.r.Count("rebuild-branch." + st)
+		// which of two new changes attaches first decides whether a change naming the other one as its
+		// snapshot is kept or dropped (Go map order): such batches are judged by the oracle only
+		newIds := map[string]bool{}
+		for _, p := range ps {
+			if _, att := tc.attached[p.id]; !att {
+				newIds[p.id] = true
+			}
+		}
+		for _, p := range ps {
+			if p.decOK && !p.isRoot && p.snap != tc.rootId && newIds[p.snap] && !tc.resync {
+				tc.resync = true
+				tc.r.Count("unmodelled.rebuild.order-dependent")
+			}
+		}
+	}
+	if !tc.resync {
+		if strings.HasSuffix(model, " br=r") {
+			tc.r.Count("rebuild-branch.compared")
+		}
 		tc.check("auth.add", model, impl)
 	}
 	tc.r.Count("add.outcome." + strings.SplitN(status, ":", 2)[0])
@@ -790,7 +814,15 @@ func (tc *treeCase) validate(root *rawCh, batch []*rawCh, heads []string, tag st
 		tr.IterateRoot(nil, func(c *objecttree.Change) bool { iter = append(iter, c.Id); return true })
 		impl = "ok a=" + sortedNums(tc, iter)
 	}
-	if model == "rebuild" {
+	foreign := false
+	for _, p := range ps {
+		if p.decOK && !p.isRoot && p.snap != root.id {
+			foreign = true
+		}
+	}
+	if foreign || model == "rebuild" {
+		// a change naming a snapshot other than the root: the rebuild branch inside whole-tree
+		// validation is judged by the oracle only
 		tc.r.Count("unmodelled.rebuild.validate")
 	} else {
 		tc.check("auth.validate", model, impl)
